@@ -10,6 +10,7 @@ import (
 	"sort"
 	"strings"
 	"sync"
+	"sync/atomic"
 	"testing"
 	"time"
 
@@ -77,6 +78,30 @@ func c05Run(run *vfRun, sc vfbScenario) {
 	nontrivial := false
 	vfbRunScenario(run, sc, vfbScenarioHooks{
 		afterStart: func(nt *vfbNet, adv *vfbAdversary) {
+			if sc.Index%3 == 2 {
+				// interleaving pressure: let the sync path win its race against the node's own aggregation whenever a
+				// live sync stream is about to store the same round (park the aggregator briefly before its Put)
+				nt.mu.Lock()
+				nt.onHook = func(name string, n *vfbNode, args []any) {
+					if name != "aggregator.beforeput" || len(args) == 0 {
+						return
+					}
+					b, ok := args[0].(*common.Beacon)
+					if !ok {
+						return
+					}
+					atomic.AddInt64(&nt.inflight, 1)
+					defer atomic.AddInt64(&nt.inflight, -1)
+					deadline := time.Now().Add(60 * time.Millisecond)
+					for time.Now().Before(deadline) && nt.Head(n) < b.Round {
+						time.Sleep(time.Millisecond)
+					}
+					if nt.Head(n) >= b.Round {
+						run.Count("aggregations_overtaken_by_sync", 1)
+					}
+				}
+				nt.mu.Unlock()
+			}
 			prevEmit := nt.onEmit
 			nt.onEmit = func(from *vfbNode, to int, p *proto.PartialBeaconPacket, clk int64) {
 				prevEmit(from, to, p, clk)
